@@ -158,6 +158,25 @@ func replayC11(raw json.RawMessage) (string, error) {
 	if err != nil {
 		return "", err
 	}
+	if c.Op == "aged" {
+		fresh, err := c11NewSystem()
+		if err != nil {
+			return "", err
+		}
+		for i := 0; i < 140; i++ {
+			if err := s.CreateEmulator(); err != nil {
+				return err.Error(), fmt.Errorf("unexplained:create-emulator")
+			}
+		}
+		c11Fill(s, 0)
+		c11Fill(fresh, 0)
+		v1, p1 := c11Read(s, c.Addr)
+		v2, p2 := c11Read(fresh, c.Addr)
+		if p1 != p2 || v1 != v2 {
+			return fmt.Sprintf("after 141 CreateEmulator calls read $%06x = $%02x (panic %v), on a fresh System $%02x (panic %v)", c.Addr, v1, p1, v2, p2), fmt.Errorf("unexplained:aged-system-map-differs")
+		}
+		return "the aged System reads like a fresh one here", nil
+	}
 	if c.Op == "clone" {
 		c11Fill(s, 0)
 		clone := new(emulator.System)
@@ -435,6 +454,43 @@ func runC11(r *report.Run) {
 		}
 	}
 	r.Set("copied_system_probes", cloneProbes)
+	// ---- a System that has been through many initialisations (CreateEmulator 140 times on one object: more
+	// than 2^16 Attach calls on its bus): the map is still the map
+	var agedProbes int64
+	if aged, err := c11NewSystem(); err == nil {
+		for i := 0; i < 140 && err == nil; i++ {
+			err = aged.CreateEmulator()
+		}
+		if err != nil {
+			r.Violation("unexplained:create-emulator", "repeated CreateEmulator failed: "+err.Error(), nil)
+		} else {
+			c11Fill(aged, 0)
+			for b := uint32(0); b < 1<<24; b++ {
+				if b&0xF != 0 || (b != 0 && !unatt[b] == !unatt[b-1] && (unatt[b] || ids[b]>>28 == ids[b-1]>>28)) {
+					continue
+				}
+				for _, a := range []uint32{b, b + 15, b - 1} {
+					if a >= 1<<24 {
+						continue
+					}
+					agedProbes++
+					v, p := c11Read(aged, a)
+					if unatt[a] {
+						if !p {
+							r.Violation("unexplained:aged-system-map-differs", fmt.Sprintf("after 141 CreateEmulator calls on one System, $%06x (unattached on a fresh System) reads $%02x", a, v), c11Case{Op: "aged", Addr: a})
+							break
+						}
+						continue
+					}
+					if p || uint32(v) != ids[a]&0xFF {
+						r.Violation("unexplained:aged-system-map-differs", fmt.Sprintf("after 141 CreateEmulator calls on one System, read $%06x = $%02x (panic %v); a fresh System reads $%02x there", a, v, p, ids[a]&0xFF), c11Case{Op: "aged", Addr: a})
+						break
+					}
+				}
+			}
+		}
+	}
+	r.Set("aged_system_probes", agedProbes)
 	// ---- writes, by mirror layer
 	s, err := c11NewSystem()
 	if err != nil {
@@ -504,7 +560,7 @@ func runC11(r *report.Run) {
 	r.Set("by_class", perClass)
 	r.Set("mirror_layers", int64(maxLayer))
 	r.Set("writes_executed", writes)
-	r.Set("rule", "a System obtained by struct copy + CreateEmulator must serve its own arrays (both edges of every seam read and written, the original untouched); block reads: Bus.EaDump from 20, 8 and 1 bytes before every seam of the map (attached/unattached or another array) to 20 bytes after it, and over blocks inside one 16-byte cell on either side of the seam, must equal the single reads and leave holes untouched; reads: all 2^24 bus addresses x 4 passes (byte k of a unique location id planted in every ROM/SRAM/WRAM array cell) identify exactly which cell backs each address; writes: addresses grouped into mirror layers (j-th alias of each cell), each layer written ascending/descending with two complementary value patterns and all three arrays compared in full with the prediction after each run; non-trivial = address that both the emulator backs with an array cell and the LoROM mapper translates")
+	r.Set("rule", "a System initialised 141 times must still have the map of a fresh one (both edges of every seam); a System obtained by struct copy + CreateEmulator must serve its own arrays (both edges of every seam read and written, the original untouched); block reads: Bus.EaDump from 20, 8 and 1 bytes before every seam of the map (attached/unattached or another array) to 20 bytes after it, and over blocks inside one 16-byte cell on either side of the seam, must equal the single reads and leave holes untouched; reads: all 2^24 bus addresses x 4 passes (byte k of a unique location id planted in every ROM/SRAM/WRAM array cell) identify exactly which cell backs each address; writes: addresses grouped into mirror layers (j-th alias of each cell), each layer written ascending/descending with two complementary value patterns and all three arrays compared in full with the prediction after each run; non-trivial = address that both the emulator backs with an array cell and the LoROM mapper translates")
 	r.Set("exhaustive", true)
 	r.Sample(c11Case{Op: "read", Addr: 0x808000})
 	r.Sample(c11Case{Op: "write", Addr: 0x001FFF})
